@@ -25,6 +25,7 @@ type ptask struct {
 }
 
 type c03cfg struct {
+	threshold int // > 0: scale the poller's high-priority threshold (1024) down, so that the "urgent queue is at its threshold" paths are reachable in short executions
 	name      string
 	preLow    int // low-priority tasks queued before the loop starts
 	preHigh   int
@@ -69,6 +70,9 @@ func (s *c03scn) Body() {
 		panic(err)
 	}
 	s.p = p
+	if s.cfg.threshold > 0 {
+		p.highPriorityEventsThreshold = int32(s.cfg.threshold)
+	}
 	for i := 0; i < s.cfg.preHigh; i++ {
 		_, f := s.newTask("pre/high")
 		if err := p.Trigger(queue.HighPriority, f, nil); err != nil {
@@ -204,6 +208,11 @@ func c03Configs(thorough bool) []c03cfg {
 		{name: "pre257low+1", preLow: 257, producers: [][]ptask{{lo}}},
 		{name: "pre1024high+1", preHigh: 1024, producers: [][]ptask{{lo}}},
 		{name: "pre1024high+hh", preHigh: 1024, producers: [][]ptask{{hi, hi}}},
+		// the same threshold paths with the threshold scaled from 1024 down to 6 (the code compares
+		// the urgent queue's length with it and does nothing else with the number)
+		{name: "thr6/pre6high+lo", threshold: 6, preHigh: 6, producers: [][]ptask{{lo}}},
+		{name: "thr6/pre6high+hh", threshold: 6, preHigh: 6, producers: [][]ptask{{hi, hi}}},
+		{name: "thr6/pre6high+lo|hi", threshold: 6, preHigh: 6, producers: [][]ptask{{lo}, {hi}}},
 	}
 	if thorough {
 		cfgs = append(cfgs,
@@ -257,9 +266,10 @@ func TestMC_C03(t *testing.T) {
 			continue
 		}
 		cfg := mk(c)
-		if c.preLow+c.preHigh > 0 {
+		if c.preLow+c.preHigh > 8 {
+			cfg.Horizon = 400000
 			cfg.Bounds = []sched.Bound{{PB: 0}, {PB: 1}}
-			if thorough || c.name == "pre1024high+hh" || c.name == "pre1024high+1" {
+			if thorough {
 				// one producer's two high-priority requests around the 1024-task threshold: needs a
 				// switch to the loop and back
 				cfg.Bounds = append(cfg.Bounds, sched.Bound{PB: 2})
